@@ -311,6 +311,15 @@ def run(ctx):
             pool.append(comps)
     for i in range(n_names):
         comps = gen.name(rng)
+        if i % 9 == 0:
+            # components whose TYPE coincides with a packet-level element (Name 7, Interest 5, Data 6, MetaInfo 20, Content 21 ...) and
+            # whose VALUE is empty or itself looks like TLV elements / an encoded name: still one opaque component each
+            comps = list(comps)
+            for _ in range(rng.randint(1, 2)):
+                t = rng.choice([7, 7, 7, 5, 6, 20, 21, 22, 23, 10, 12])
+                v = rng.choice([b'', b''.join(gen.name(rng, 0, 3, gen.BORING_TYPES)), rc.enc_name(gen.name(rng, 0, 2, gen.BORING_TYPES)), gen.comp_value(rng, 8)])
+                comps.insert(rng.randint(0, len(comps)), rc.comp(t, v))
+            ctx.event('component-typed-like-a-packet-element')
         check_name(ctx, comps)
         if i % 4 == 0:
             check_history(ctx, comps)
